@@ -2,6 +2,7 @@ import PytezosModel.Proofs.InterpProgressStep
 /-! Progress for the right-comb instructions (`PAIR n`, `UNPAIR n`, `GET n`, `UPDATE n`), and the collection of all the
 rules without sub-programs: `step_safe`. -/
 namespace Interp
+variable [Mode]
 open Typing
 
 theorem pairN_safe : ∀ (n : Nat) (st : List Val) (p : Ty × List Ty), GoodStack st → pairNTy n (st.map typeOf) = some p →
